@@ -113,12 +113,13 @@ func lines(f func(raw []byte, w *bufio.Writer)) {
 }
 
 type expandOut struct {
-	Outs  []string `json:"outs"`  // distinct results of ExpandMacros over all repetitions and insertion orders
-	Re    []string `json:"re"`    // distinct results of ExpandMacros applied to every element of outs
-	Valid bool     `json:"valid"` // kfl.Validate(query) == nil
-	Prep  bool     `json:"prep"`  // kfl.PrepareQuery(query) returned no error
-	Err   bool     `json:"err"`   // some ExpandMacros call returned an error
-	Panic bool     `json:"panic"`
+	Outs      []string `json:"outs"`       // distinct results of ExpandMacros over all repetitions and insertion orders
+	Re        []string `json:"re"`         // distinct results of ExpandMacros applied to every element of outs
+	Valid     bool     `json:"valid"`      // kfl.Validate(query) == nil
+	Prep      bool     `json:"prep"`       // kfl.PrepareQuery(query) returned no error
+	Err       bool     `json:"err"`        // some ExpandMacros call returned an error
+	Panic     bool     `json:"panic"`      // ExpandMacros panicked
+	PrepPanic bool     `json:"prep_panic"` // Validate / PrepareQuery panicked (C13's business; reported, not judged here)
 }
 
 // expand <reps> <shuffles> <seed> [table.json]: for every input text run the real ExpandMacros
@@ -212,7 +213,7 @@ func expand(args []string) {
 		func() {
 			defer func() {
 				if r := recover(); r != nil {
-					res[i].Panic = true
+					res[i].PrepPanic = true
 				}
 			}()
 			res[i].Valid = kfl.Validate(q) == nil
